@@ -139,7 +139,8 @@ def replay_tasks(run, sets, builds, thorough):
     rest2   all other depth-2 sequences over the full shape space: levels rotate per chunk of 100 and with the seed
             (quick: one level per chunk, stateless types lz4/null every second chunk; thorough: four levels per chunk)
     deeper  (reduced shape space depth 3/4, simulated full shape space): one level per chunk, rotating; quick: every type
-            takes every second chunk; thorough: zstd/cgo every chunk, zstd/native every fourth, stateless types every third
+            takes every second chunk; thorough: zstd/cgo every second chunk, zstd/native every sixth, stateless types every
+            fourth; the tag builds only replay the simulated set
     """
     plan = {}
     for sname, lines in sets.items():
@@ -169,10 +170,12 @@ def replay_tasks(run, sets, builds, thorough):
                             cfgs = []      # quick: the stateless types take every second chunk of the pair sequences
                     else:
                         if thorough:
-                            every = 1 if typ == "zstd" and not native_zstd else 4 if native_zstd else 3
+                            every = 2 if typ == "zstd" and not native_zstd else 6 if native_zstd else 4
                         else:
                             every = 2
                         cfgs = [grid[(rot // every) % len(grid)]] if (rot + ti) % every == 0 else []
+                        if bname not in ("cgo", "nocgo") and not sname.startswith("sim"):
+                            cfgs = []      # the tag builds share the encoder code with cgo / nocgo: no deep enumeration
                     for cfg in cfgs:
                         tasks.append((bname, typ, cfg, sname, base, chunk))
     # expensive tasks first: native zstd instances are costly to create, high levels of the C libraries are slow
